@@ -64,7 +64,7 @@ RET_AXIS = Shaped[np.ndarray, "p vfret"]
 RET_STRUCT = PyTree[int, "VfS"]
 KINDS = ["new-typeguard", "new-beartype", "old-typeguard", "none", "method", "dataclass", "context", "new-typeguard", "old-beartype", "context-shared", "context-shared",
          "plain-typeguard", "plain-beartype", "bare-beartype", "bare-typeguard"]  # plain-*: new-style checker, but no jaxtyping annotation in the signature; bare-*: no annotation at all
-EXITS = ["return", "return", "exc", "exc", "bad-param", "bad-return"]
+EXITS = ["return", "return", "exc", "exc", "bad-param", "bad-return", "bad-arity"]
 
 
 class Interp:
@@ -146,6 +146,8 @@ class Interp:
         if kind.startswith(("plain-", "bare-")) and exit_ == "bad-return":
             exit_ = "return"
         if not has_checker and exit_ in ("bad-param", "bad-return"):
+            exit_ = "return"
+        if exit_ == "bad-arity" and kind in ("context", "context-shared", "dataclass"):
             exit_ = "return"
         if kind == "dataclass" and exit_ == "bad-return":
             exit_ = "return"
@@ -248,7 +250,11 @@ class Interp:
                             fn = jaxtyped(typechecker=gc.checker(kind[4:]))(raw)
                         else:
                             fn = jaxtyped(gc.checker(kind[4:])(raw))
-                retval[0] = fn(arg, k)
+                if exit_ == "bad-arity":
+                    # a call that does not even bind (too many arguments): TypeError, the body never starts, the caller's context stays
+                    retval[0] = fn(arg, k, "extra-1", "extra-2", "extra-3")
+                else:
+                    retval[0] = fn(arg, k)
             outcome = "returned"
         except BaseException as e:  # noqa: BLE001
             outcome = e
@@ -283,6 +289,14 @@ class Interp:
                 self.fail("call-outcome", f"{where}: body ran although the parameter is ill-typed")
             if self.stack:
                 self.stack[-1]["after_exc"] = True
+        elif exit_ == "bad-arity":
+            if not isinstance(outcome, TypeError):
+                self.fail("call-outcome", f"{where}: a call with three surplus arguments gave {outcome if outcome == 'returned' else type(outcome).__name__}, expected TypeError")
+            if entered:
+                self.fail("call-outcome", f"{where}: body ran although the call does not bind")
+            if self.stack:
+                self.stack[-1]["after_exc"] = True
+            self.flags.add("non-binding-call")
         elif exit_ == "bad-return":
             if outcome == "returned":
                 self.fail("call-outcome", f"{where}: ill-typed return value accepted")
